@@ -51,11 +51,9 @@ Proof.
   intros a b. repeat split.
   - unfold vadd. destruct (int_text a), (int_text b); cbn [vadd_typed]; try apply binary_op_np; try apply mk_dur_np; try apply mk_date_np; discriminate.
   - unfold vsub. destruct (int_text a), (int_text b); cbn [vsub_typed]; try apply binary_op_np; try apply mk_dur_np; try apply mk_date_np; discriminate.
-  - unfold vmul. destruct (int_text a), (int_text b); cbn [vmul_typed]; try apply binary_op_np; try discriminate;
-      match goal with |- context[in_i32 ?x] => destruct (in_i32 x) end;
-      try apply mk_dur_np; discriminate.
+  - unfold vmul. destruct (int_text a), (int_text b); cbn [vmul_typed]; try apply binary_op_np; try apply mk_dur_np; discriminate.
   - unfold vdiv. destruct a, (int_text b); cbn [vdiv_typed]; try apply binary_op_np.
-    match goal with |- context[in_i32 ?x && _] => destruct (in_i32 x && negb (x =? 0)%Z) end; discriminate.
+    match goal with |- context[negb (?x =? 0)%Z] => destruct (negb (x =? 0)%Z) end; discriminate.
 Qed.
 
 Lemma concat_displays_np args : concat_displays args <> Panic.
